@@ -1,6 +1,138 @@
-(* placeholder *)
-From Coq Require Import List Bool.
-From Cylc Require Import Base.Util Model.Fs.
+(* Props/C38.v — C38 "`cylc clean` deletes only inside the workflow".
+   Property theorems only; proofs are in Proofs/FsProofs.v.
+   Model/Fs.v: a filesystem is a flat map from PHYSICAL paths to file / dir /
+   symlink(target); logical paths are resolved by a kernel-style walk.  The
+   model covers parse_rm_dirs (with normpath), get_symlink_dirs,
+   glob_in_run_dir's filter, _clean_using_glob, remove_dir_or_file,
+   remove_dir_and_target, the wholesale branch and the tidy-up of clean().
+   `glob.iglob`+`sorted` is an oracle: the matches are data ([raw]) about which
+   the theorems only assume that each is a lexical descendant of the run dir
+   ([lexical run x]: x = run ++ rel) — checked on every recorded match by the
+   correspondence stream, which compares the model's resulting tree with the
+   real clean()'s on generated scratch trees.
+
+   Reading of "deleted": an entry of the initial tree [s0] that is no longer
+   in the resulting tree.  Because the tree is keyed by physical paths,
+   "inside" is physical containment — a symlink's target is elsewhere, so
+   "never follows other symlinks" is part of containment. *)
+From Coq Require Import List Bool Arith.
+From Cylc Require Import Base.Util Model.Fs Proofs.FsProofs.
 Import ListNotations.
-Theorem c38_placeholder : parse_part [CPar] = PAbove.
-Proof. reflexivity. Qed.
+
+(* 1. Accepted --rm patterns contain no '..' (nor '.', nor empty) component:
+   only names, at least one.  [cs] is part.split('/') of a stripped part. *)
+Theorem c38_normpath_no_dotdot : forall cs n tr,
+  parse_part cs = PAccept n tr -> n <> [] /\ forall c, In c n -> exists k, c = CName k.
+Proof. exact parse_accept_names. Qed.
+
+(* ... and the raw part, read lexically from the run dir ('..' pops, names
+   push), never climbs above the run dir and ends exactly at those names:
+   an accepted pattern denotes a strict lexical descendant of the run dir. *)
+Theorem c38_accepted_stays_below : forall cs n tr,
+  parse_part cs = PAccept n tr -> lex cs [] = Some (rev n).
+Proof. exact parse_accept_lexical. Qed.
+
+(* 2. Containment.  For any tree, any run dir (not the root), any result of
+   get_symlink_dirs, any --rm patterns with lexical glob results (or a
+   wholesale clean): every entry that the core of clean() — everything before
+   the final tidy-up — removes lies at or below the run dir entry, the run
+   dir's real location, or the real target of a standard symlink dir
+   (evaluated on the initial tree).  In particular nothing is ever removed
+   through a non-standard symlink. *)
+Theorem c38_contained : forall s0 run id pairs globs s1 e,
+  run <> [] ->
+  get_symlink_dirs s0 run id = ROk pairs ->
+  globs_lexical run globs ->
+  clean_core s0 run (map fst pairs) globs = (s1, e) ->
+  forall ent, In ent s0 -> ~ In ent s1 ->
+  inside0 s0 run (map (fun d => run ++ d) (map fst pairs)) (fst ent).
+Proof. exact clean_core_contained. Qed.
+
+(* clean() is that core followed by the tidy-up; and when a standard symlink
+   dir is invalid it refuses without touching anything. *)
+Theorem c38_clean_is_core_then_tidy : forall s cr id globs pairs,
+  get_symlink_dirs s (cr ++ id) id = ROk pairs ->
+  clean s cr id globs =
+  match clean_core s (cr ++ id) (map fst pairs) globs with
+  | (s1, Some e) => (s1, Some e)
+  | (s1, None) => tidy s1 (cr ++ id) id pairs
+  end.
+Proof. exact clean_unfold. Qed.
+
+Theorem c38_refusal_deletes_nothing : forall s cr id globs e,
+  get_symlink_dirs s (cr ++ id) id = RErr e -> clean s cr id globs = (s, Some e).
+Proof. exact clean_refuses. Qed.
+
+(* 3. Non-standard symlinks are unlinked, never followed: remove_dir_or_file
+   on a symlink removes exactly the link's own directory entry (and by
+   c38_contained nothing below its target, unless that is inside anyway). *)
+Theorem c38_symlink_unlinked : forall s p,
+  is_link s p = true -> rm_dir_or_file s p = ROk (opt_list (phys s p)).
+Proof. intros s p H. unfold rm_dir_or_file. rewrite H. reflexivity. Qed.
+
+(* 4. Completeness.  (a) The removal loop cannot fail and leaves none of its
+   paths in existence — this is the statement that was false before the fix
+   of `_clean_using_glob` (a match below an already removed match raised
+   FileNotFoundError and the later matches survived); witness kept below. *)
+Theorem c38_removal_loop_total : forall ps s, (forall p, In p ps -> p <> []) ->
+  exists s', rm_each s ps = (s', None) /\ forall p, In p ps -> lexists s' p = false.
+Proof.
+  intros ps s H. destruct (rm_each_complete ps s H) as (s' & E & _ & G).
+  exists s'. split; [exact E|]. intros p Hp. apply gone_now. apply G. exact Hp.
+Qed.
+
+(* (b) For one pattern: unless remove_dir_and_target itself raises on a
+   standard symlink dir, every path that glob_in_run_dir keeps no longer
+   exists afterwards. *)
+Theorem c38_complete_kept : forall s0 run id pairs raw s',
+  run <> [] ->
+  get_symlink_dirs s0 run id = ROk pairs ->
+  (forall x, In x raw -> lexical run x) ->
+  clean_using_glob s0 run (map fst pairs) raw = (s', None) ->
+  forall p, In p (glob_in_run_dir s0 run (map (fun d => run ++ d) (map fst pairs)) raw) ->
+  lexists s' p = false.
+Proof. exact clean_using_glob_kept_gone. Qed.
+
+(* (c) What the filter drops: every glob match is either below a non-standard
+   symlink (not to be followed), or kept, or below a kept path. *)
+Theorem c38_filter_covers : forall s run stds raw rel,
+  In (run ++ rel) raw ->
+  blocked s run stds rel \/ covered run (glob_filter s run stds raw raw [] []) rel.
+Proof. exact filter_covers. Qed.
+
+(* The full completeness statement of the property text, kept visible.  What
+   (a)-(c) leave open: that a match lying below a kept, removed path no longer
+   exists needs well-formedness of the tree (no entry below a missing one),
+   which the flat model does not impose; and the tidy-up is not covered by
+   theorems.  Both are covered by the correspondence run and the oracle. *)
+Definition c38_complete_full : Prop :=
+  forall s0 run id pairs raw s',
+    run <> [] -> get_symlink_dirs s0 run id = ROk pairs ->
+    (forall x, In x raw -> lexical run x) ->
+    clean_using_glob s0 run (map fst pairs) raw = (s', None) ->
+    forall rel, In (run ++ rel) raw ->
+      blocked s0 run (map (fun d => run ++ d) (map fst pairs)) rel \/ lexists s' (run ++ rel) = false.
+
+(* ---- non-vacuity / regression ---- *)
+(* the input of the fixed defect now completes: cat (with cat/b/cow) and
+   zed/cup are gone, the standard symlink dir log and its target stay *)
+Example c38_ex_fixed_defect :
+  clean witness_fs [0] [8] (Some witness_globs) =
+  ([ ([0], KD); ([0;8], KD); ([0;8;1], KL [14;0;8;1]); ([0;8;12], KD);
+     ([14], KD); ([14;0], KD); ([14;0;8], KD); ([14;0;8;1], KD) ], None).
+Proof. exact witness_run. Qed.
+
+(* a non-standard symlink to an outside dir (20 -> /30, sentinel /30/31):
+   `--rm out` unlinks it, the target and its content stay *)
+Example c38_ex_symlink_not_followed :
+  clean [ ([0], KD); ([0;8], KD); ([0;8;20], KL [30]); ([30], KD); ([30;31], KF) ]
+        [0] [8] (Some [[ [0;8;20] ]])
+  = ([ ([0], KD); ([0;8], KD); ([30], KD); ([30;31], KF) ], None).
+Proof. vm_compute. reflexivity. Qed.
+
+(* parse_rm_dirs: 'a/../..' and '*/../..' are rejected, 'a/./b//' accepted as a/b/ *)
+Example c38_ex_parse :
+  parse_part [CName 0; CPar; CPar] = PAbove /\
+  parse_part [CName 0; CCur; CName 1; CEmpty; CEmpty] = PAccept [CName 0; CName 1] true /\
+  parse_part [CEmpty; CName 0] = PAbs.
+Proof. vm_compute. auto. Qed.
